@@ -125,6 +125,20 @@ GroupVerdicts(k) ==
                        cnt(c) == Cardinality({j \in f..k : ref(j) = c})
                    IN IF cnt("?") = 0 /\ C18FreqOK(o.case.group.strategy, cnt("c1"), cnt("c2"), cnt("c3"), k - f + 1)
                       THEN {} ELSE {Fail("C18", "reference-strategy-frequencies", "")})
+          ELSE IF rel = "c15freq2" THEN
+             (* two criteria omitted: given the likeliest first pick (the weakest criterion c1 for weakestByProbability, the *)
+             (* strongest c3 for strongestByProbability) the second pick is drawn among the other two with the same rule -  *)
+             (* c2 (importance 4) before c3 (16) resp. c2 before c1 (1) in about four cases out of five                      *)
+             (IF ~IsGroupLast(k) THEN {}
+              ELSE LET om(j) == LET evs == BiasEvents(Trace[j]) IN
+                                IF Trace[j].status = 200 /\ Len(evs) >= 1 /\ Has(evs[1].report.props, "omittedCriteria")
+                                   /\ Len(evs[1].report.props.omittedCriteria) = 2
+                                THEN <<evs[1].report.props.omittedCriteria[1].id, evs[1].report.props.omittedCriteria[2].id>> ELSE <<"?", "?">>
+                       cnt(a, b) == Cardinality({j \in f..k : om(j) = <<a, b>>})
+                       weakFirst == o.case.group.ordering = "weakestByProbability"
+                       bad == Cardinality({j \in f..k : om(j)[1] = "?"})
+                   IN IF bad = 0 /\ (IF weakFirst THEN cnt("c1", "c2") > 2 * cnt("c1", "c3") ELSE cnt("c3", "c2") > 2 * cnt("c3", "c1"))
+                      THEN {} ELSE {Fail("C15", "probability-ordering-second-pick", "")})
           ELSE IF rel = "shuffle" THEN
              (* the group's requests differ in the heuristic's seed only and ask for a seeded-random order on an instance  *)
              (* whose ranking shows the walk order: over 24 seeds the order cannot always be the same                    *)
